@@ -908,11 +908,11 @@ impl PeerHandler {
             .collect();
         let sent: Vec<String> = self.connection.verif_sent.drain(..).collect();
         format!(
-            "\"st\":{{\"ch\":{},\"in\":{},\"ka\":{},\"pid\":{},\"rx\":{},\"tx\":{},\"buf\":[{}],\"ub\":{},\"blen\":{}}},\"sent\":[{}]",
+            "\"st\":{{\"ch\":{},\"in\":{},\"ka\":{},\"hs\":{},\"rx\":{},\"tx\":{},\"buf\":[{}],\"ub\":{},\"blen\":{}}},\"sent\":[{}]",
             self.peer_state.choked,
             self.peer_state.interested,
             self.peer_state.keep_alive,
-            self.peer_id.is_some(),
+            self.peer_state.handshake_done,
             rx,
             tx,
             buf.join(","),
